@@ -349,5 +349,61 @@ theorem break_both (F : Frame inpS inpW δ) (hcl : Closed inpS inpW δ) {d : Nat
     rw [if_neg hu, if_neg huw]
     exact Or.inr ⟨_, _, rfl, rfl, hcons, by simp only [hxS, hxW]; exact hK⟩
 
+/-! ### pieces of the `eoc` / `memchr` cases of the step lemma -/
+
+/-- `consume_until` over an extended input: a needle-free prefix is skipped -/
+theorem findByte_append (nd : UInt8) (xs ys : Bytes) :
+    findByte nd (xs ++ ys) = match findByte nd xs with
+      | some p => some p
+      | none => (findByte nd ys).map (· + xs.length) := by
+  induction xs with
+  | nil => simp [findByte]
+  | cons x xs ih =>
+    simp only [List.cons_append, findByte]
+    split
+    · rfl
+    · rw [ih]
+      cases findByte nd xs with
+      | some p => rfl
+      | none =>
+        cases findByte nd ys with
+        | none => rfl
+        | some q => simp only [Option.map_some, List.length_cons]; congr 1
+
+/-- a state without sequence arms: `runSeqArms` does nothing -/
+theorem runSeqArms_noSeq (inp : Bytes) (ch : Option UInt8) :
+    ∀ (arms : List Arm) (m : M κ), (arms.any fun a => isSeqPat a.pat) = false → runSeqArms env inp ch arms m = .inr m := by
+  intro arms
+  induction arms with
+  | nil => intro m _; rfl
+  | cons a rest ih =>
+    intro m h
+    simp only [List.any_cons, Bool.or_eq_false_iff] at h
+    simp only [runSeqArms]
+    split
+    · rename_i hp; rw [hp] at h; simp [isSeqPat] at h
+    · exact ih m h.2
+
+/-- **Text debt is created**: the `emit_text` of an `eoc` arm runs in the split run only (the whole run has
+not reached the end of its input); the lexer registers stay related, with the debt increased by the
+length of the emitted text. -/
+theorem LexRel.emitTextSplitOnly {d np : Nat} {ab ab' : Ab} {ls lw : LexRegs} (h : LexRel δ d ab np ls lw)
+    (hP : ab.P = true) (hn : ab'.noLex) :
+    LexRel δ (d + (np - 1 - ls.lexemeStart)) ab' np
+      (if np - 1 > ls.lexemeStart then { ls with lexemeStart := np - 1 } else ls) lw := by
+  have hp := h.p hP
+  have hle := h.ls_eq
+  obtain ⟨n1, n2, n3, n4, n5, n6⟩ := hn
+  split
+  · refine ⟨by show np - 1 ≤ np; omega, by show _ = np - 1 + δ; omega, fun _ => by show np - 1 + 1 ≤ np; omega, h.fd,
+      (fun g => by simp [n1] at g), ?_, ?_, ?_, (fun g => by simp [n6] at g)⟩
+    · rw [n2, n3]; exact OptRel.mono (fun _ _ hr => hr.stale) h.tag
+    · rw [n4]; exact OptRel.mono (fun _ _ hr => hr.stale) h.attr
+    · rw [n5]; exact OptRel.mono (fun _ _ hr => hr.stale) h.nt
+  · refine ⟨h.ls_le, by omega, fun _ => hp, h.fd, (fun g => by simp [n1] at g), ?_, ?_, ?_, (fun g => by simp [n6] at g)⟩
+    · rw [n2, n3]; exact OptRel.mono (fun _ _ hr => hr.stale) h.tag
+    · rw [n4]; exact OptRel.mono (fun _ _ hr => hr.stale) h.attr
+    · rw [n5]; exact OptRel.mono (fun _ _ hr => hr.stale) h.nt
+
 end
 end LolHtml.Model.Chunk
